@@ -1,7 +1,7 @@
 """mut.py <relfile> <old> <new> <check,check> : apply a textual source mutation to a scratch copy, re-dump MIR, run mirblocks/miragg checks"""
 import sys, os, subprocess, time, shutil
 sys.path.insert(0,'/verif/lib')
-import mirsmt, miragg, mirblocks, mirflow, mirpaths, mirload, mirquery, mirorder, mirparse
+import mirsmt, miragg, mirblocks, mirflow, mirpaths, mirload, mirquery, mirorder, mirparse, mirgen
 rel, old, new, checks = sys.argv[1:5]
 base='/repo'
 mut='/tmp/mutsrc'
@@ -18,7 +18,7 @@ mir=mirsmt.dump_mir(mut)
 ob=mirsmt.Obligations(); a=miragg.Agg(mir,mut,ob)
 for name in checks.split(','):
     t0=time.time()
-    f=getattr(mirblocks,name,None) or getattr(mirflow,name,None) or getattr(mirpaths,name,None) or getattr(mirload,name,None) or getattr(mirquery,name,None) or getattr(mirorder,name,None) or getattr(mirparse,name,None)
+    f=getattr(mirblocks,name,None) or getattr(mirflow,name,None) or getattr(mirpaths,name,None) or getattr(mirload,name,None) or getattr(mirquery,name,None) or getattr(mirorder,name,None) or getattr(mirparse,name,None) or getattr(mirgen,name,None)
     try:
         if f: f(a)
         else: getattr(a,name)()
